@@ -120,7 +120,8 @@ impl NumericParser {
             return true;
         }
         if *c == ',' {
-            if !self.check_comma() {
+            // no thousands separators in (or directly after the point of) a fraction: "1.,222", "1.2,345"
+            if self.has_hanging_point || self.tmp.has_point() || !self.check_comma() {
                 self.error_state = Error::COMMA;
                 return false;
             }
